@@ -8,6 +8,7 @@
 EXTENDS Notation
 
 ColCh(c) == IF c = W THEN "w" ELSE "b"
+KindCh2 == <<"pawn", "knight", "bishop", "rook", "queen", "king">>
 
 MoveTag(pos, m) ==
   LET c == ColCh(pos.turn) IN
@@ -50,6 +51,9 @@ PosTags(pos, L) ==
                            /\ \E bit \in BitsOf(pos.rights) : RookHome(bit) = m.t, "home-rook-captured")
      \cup T(\E m \in L : m.k = "P" /\ m.c = R /\ \E bit \in BitsOf(pos.rights) : RookHome(bit) = m.t,
             "promotion-captures-home-rook")
+     \* who takes the home rook matters to implementations that special-case movers
+     \cup { "home-rook-captured-by-" \o KindCh2[Kind(b[m.f])] :
+              m \in { x \in L : x.c = R /\ x.k = "S" /\ \E bit \in BitsOf(pos.rights) : RookHome(bit) = x.t } }
      \cup T(\E m1, m2 \in L : /\ m1.k # "C" /\ m2.k # "C" /\ m1.f # m2.f /\ m1.t = m2.t
                               /\ Kind(b[m1.f]) = Kind(b[m2.f]) /\ Kind(b[m1.f]) # P
                               /\ File(m1.f) # File(m2.f) /\ Rank(m1.f) # Rank(m2.f),
